@@ -993,7 +993,7 @@ def _eval_at_nul(cond, cursor_keys, preds):
 
 # forward scans that cannot meet the terminator for a reason outside the loop (reviewed)
 SCANSTOP_REVIEWED = {
-    ("mmd.c", "mmd_engine_update_metavalue_for_key", "*begin"):
+    ("mmd.c", "mmd_engine_update_metavalue_for_key", "($!=58)"):
         "begin starts at the first byte of a metadata key that the parser recorded (m->start): a ':' follows on that line",
 }
 
@@ -1051,7 +1051,10 @@ def r_scanstop(P, chk):
             val = _eval_at_nul(cond, set(cur), preds)
             ok = val is not True
             why = ""
-            for ck in cur:
+            ck = key(cond).replace(" ", "")
+            for c0 in sorted(cur, key=len, reverse=True):
+                ck = ck.replace(c0.replace(" ", ""), "$")       # the loop condition with the cursor abstracted
+            for ck in [ck]:
                 r = SCANSTOP_REVIEWED.get((f.unit.base, f.name, ck))
                 if r and not ok:
                     ok, why = True, " (reviewed: %s)" % r
@@ -1438,11 +1441,48 @@ def r_uaf(P, chk):
 # R-HASHKEY: uthash keeps the key *pointer*; it must point into storage that lives as long as the table entry
 
 def r_hashkey(P, chk):
+    from .prog import single_assignment_locals
     rid = "R-HASHKEY"
     chk.rule(rid, "every key pointer stored in a uthash handle (HASH_ADD_KEYPTR: `rec->hh.key = ptr`) is a string field of a record "
-                  "(owned by the entry or by the record it wraps), never a bare parameter or local whose storage the caller may free; "
+                  "(owned by the entry or by the record it wraps), never a bare parameter or local whose storage the caller may free "
+                  "(a local copy of a field and a helper's parameter are followed to the field / to every call site); "
                   "the recorded key length is the length of that same string")
     n = 0
+    edges, _, _ = P.callgraph()
+
+    def field_like(f, e, depth=0):
+        """Is e (in f) a record field - directly, through a single-assignment local, or a parameter that every caller
+        binds to a record field?"""
+        r = strip(e)
+        if r is None:
+            return False
+        if r["k"] == "MemberExpr":
+            return True
+        if r["k"] == "DeclRefExpr" and r.get("dk") == "Var" and depth < 3:
+            init = single_assignment_locals(f).get(r["n"])
+            return init is not None and field_like(f, init, depth + 1)
+        if r["k"] == "DeclRefExpr" and r.get("dk") == "Parm" and depth < 2:
+            idx = [i2 for i2, p in enumerate(f.params) if p[0] == r["n"]]
+            if not idx:
+                return False
+            sites = []
+            for g in P.all_funcs:
+                if not P.first_party(g):
+                    continue
+                for c in g.calls(f.name):
+                    if P.resolve(g, f.name) is f and idx[0] < len(c["c"]) - 1:
+                        sites.append((g, c))
+
+            def tied(g, c):
+                # the caller passes `R->field` for the key and R itself in the same call: the helper stores R with the entry
+                a = strip(c["c"][1 + idx[0]])
+                if a is None or a["k"] != "MemberExpr":
+                    return False
+                base = key(a["c"][0])
+                return any(key(o) == base for j2, o in enumerate(c["c"][1:]) if j2 != idx[0])
+            return bool(sites) and all(tied(g, c) for g, c in sites)
+        return False
+
     for f in P.all_funcs:
         if not P.first_party(f):
             continue
@@ -1459,7 +1499,7 @@ def r_hashkey(P, chk):
             for x in xs:
                 n += 1
                 r = strip(x["c"][1])
-                ok = r is not None and r["k"] == "MemberExpr"
+                ok = field_like(f, r)
                 lk = [key(y["c"][1]) for y in lens.get(line, [])]
                 same = not lk or any(k2 == "strlen(%s)" % key(r) for k2 in lk)
                 chk.obligation(rid, "%s %s: hash key %s (length %s)" % (f.where(x), f.name, key(r), ",".join(lk)), ok=ok and same)
@@ -1470,5 +1510,256 @@ def r_hashkey(P, chk):
                 elif not same:
                     chk.violation(rid, "hashkey:len:%s:%s:%s" % (f.unit.base, f.name, key(r)), f.where(x),
                                   "%s records key length %s for key %s" % (f.name, ",".join(lk), key(r)))
-    chk.floor(rid, n, 8, "HASH_ADD_KEYPTR sites")
+    chk.floor(rid, n, 3, "HASH_ADD_KEYPTR sites")
     chk.analysed[rid] = {"sites": n}
+
+
+# ---------------------------------------------------------------------------
+# R-GOTOINIT: no goto jumps forward over the initialisation of a local that is read after the label
+
+def r_gotoinit(P, chk):
+    rid = "R-GOTOINIT"
+    chk.rule(rid, "a forward `goto L` does not bypass the declaration (with initialiser) of a local that is read at or after L without "
+                  "being assigned first: the variable exists there but its value is indeterminate (e.g. a pointer later freed)")
+    n = 0
+    for f in P.all_funcs:
+        if not P.first_party(f) or f.unit.base in compdb.GENERATED_UNITS or f.unit.base in ("miniz.c", "argtable3.c"):
+            continue
+        gotos = [x for x in f.walk() if x["k"] == "GotoStmt"]
+        if not gotos:
+            continue
+        labels = {x["n"]: x for x in f.walk() if x["k"] == "LabelStmt"}
+        decls = []
+        for x in f.walk():
+            if x["k"] == "VarDecl":
+                p = f.parent(x)
+                b = x.get("b") if x.get("b") is not None else (p.get("b") if p is not None else None)
+                if b is not None:
+                    decls.append(dict(x, b=b, _node=x))
+        pos = f.cfg.positions()
+        for g in gotos:
+            lab = labels.get(g.get("n"))
+            if lab is None or lab["b"] <= g["b"]:
+                continue
+            n += 1
+            bad = None
+            for d in decls:
+                if not (g["b"] < d["b"] < lab["b"]):
+                    continue
+                # the label must be inside the scope of the declaration: the declaring compound statement contains the label
+                scope = None
+                for a in f.ancestors(d["_node"]):
+                    if a["k"] == "CompoundStmt":
+                        scope = a
+                        break
+                if scope is None or not any(x is lab for x in walk(scope)):
+                    continue
+                # is d read after the label before any assignment?  (CFG search from the label)
+                if lab["i"] not in pos:
+                    # the label's sub-statement carries the position
+                    z = next((c for c in walk(lab) if c.get("i") in pos), None)
+                    if z is None:
+                        continue
+                    lb, li = pos[z["i"]]
+                else:
+                    lb, li = pos[lab["i"]]
+                defs, uses = {}, {}
+                for y in f.walk():
+                    if y.get("i") not in pos and y["k"] != "DeclRefExpr":
+                        continue
+                    if y["k"] == "BinaryOperator" and y["op"] == "=" and key(y["c"][0]) == d["n"] and y["i"] in pos:
+                        b, i = pos[y["i"]]
+                        defs.setdefault(b, []).append(i)
+                for y in f.walk():
+                    if y["k"] == "DeclRefExpr" and y["n"] == d["n"] and y.get("did") == d.get("did"):
+                        p = f.parent(y)
+                        if p is not None and p["k"] == "BinaryOperator" and p["op"] == "=" and strip(p["c"][0]) is y:
+                            continue
+                        z = y
+                        while z is not None and z.get("i") not in pos:
+                            z = f.parent(z)
+                        if z is None:
+                            continue
+                        b, i = pos[z["i"]]
+                        uses.setdefault(b, []).append((i, y))
+                seen, st = set(), [(lb, li)]
+                while st and bad is None:
+                    b, i0 = st.pop()
+                    if (b, i0 > 0) in seen:
+                        continue
+                    seen.add((b, i0 > 0))
+                    dcut = min([i for i in defs.get(b, ()) if i >= i0], default=None)
+                    for (i, y) in sorted(uses.get(b, ()), key=lambda t: t[0]):
+                        if i >= i0 and (dcut is None or i <= dcut):
+                            bad = (d, y)
+                            break
+                    if bad is None and dcut is None:
+                        st.extend((s, 0) for s in f.cfg.blocks[b].rsucc)
+                if bad:
+                    break
+            chk.obligation(rid, "%s %s: goto %s bypasses no live initialisation" % (f.where(g), f.name, g.get("n")), ok=bad is None)
+            if bad:
+                d, y = bad
+                chk.violation(rid, "gotoinit:%s:%s:%s" % (f.unit.base, f.name, d["n"]), f.where(g),
+                              "`goto %s` jumps over the initialisation of `%s` (line %d), which is read after the label at %s: "
+                              "indeterminate value" % (g.get("n"), d["n"], d["l"], f.where(y)))
+    chk.floor(rid, n, 5, "forward gotos")
+    chk.analysed[rid] = {"forward_gotos": n}
+
+
+# ---------------------------------------------------------------------------
+# R-STALE/len: a snapshot of a DString's length is not used as that buffer's length after the string may have changed
+
+def r_stalelen(P, chk):
+    rid = "R-STALE/len"
+    chk.rule(rid, "a local that holds X->currentStringLength is not stored into a length field, nor passed as the length next to "
+                  "X->str, after a call that may change the length of X (callee mod summaries) - unless it is re-read first")
+    n = 0
+    for f in P.all_funcs:
+        if not P.first_party(f) or f.unit.base in ("d_string.c", "miniz.c", "argtable3.c"):
+            continue
+        snaps = []
+        for x in f.walk():
+            nm = init = node = None
+            if x["k"] == "VarDecl" and x.get("c") and x["c"][0] is not None:
+                nm, init, node = x["n"], x["c"][0], f.parent(x)
+            elif x["k"] == "BinaryOperator" and x["op"] == "=" and strip(x["c"][0]) is not None and strip(x["c"][0])["k"] == "DeclRefExpr":
+                nm, init, node = strip(x["c"][0])["n"], x["c"][1], x
+            if nm is None or node is None or "i" not in node:
+                continue
+            ik = key(init)
+            if ik.endswith("->currentStringLength"):
+                snaps.append((nm, ik[:-len("->currentStringLength")], node))
+        if not snaps:
+            continue
+        pos = f.cfg.positions()
+        for nm, obj, dnode in snaps:
+            if dnode["i"] not in pos:
+                continue
+            root = re.match(r"[\(\*&]*([A-Za-z_]\w*)", obj).group(1)
+            # calls that may change the length of obj
+            muts = []
+            for c in f.calls():
+                cal = c.get("callee")
+                if not cal or c["i"] not in pos or c.get("m"):
+                    continue
+                args = [key(a) for a in c["c"][1:]]
+                if not any(a in (obj, root, "&" + root) for a in args):
+                    continue
+                m = P.mods(f, cal)
+                if cal.startswith("d_string_") and cal not in ("d_string_copy_substring",) or m is None or "currentStringLength" in m:
+                    muts.append(c)
+            # uses of nm as a length of the same buffer
+            uses = []
+            for y in f.walk():
+                if y["k"] == "BinaryOperator" and y["op"] == "=" and key(y["c"][0]).endswith("->currentStringLength") and key(y["c"][1]) == nm:
+                    uses.append((y, "stored into %s" % key(y["c"][0])))
+                elif y["k"] == "CallExpr" and len(y.get("c") or ()) > 2:
+                    args = [key(a) for a in y["c"][1:]]
+                    if nm in args and (obj + "->str") in args:
+                        uses.append((y, "passed to %s next to %s->str" % (y.get("callee"), obj)))
+            for u, how in uses:
+                if u["i"] not in pos:
+                    continue
+                n += 1
+                # is there a path  def -> mutating call -> use  without a redefinition of nm?
+                redefs = [d for (n2, o2, d) in snaps if n2 == nm and d is not dnode and d["i"] in pos] + \
+                         [y for y in f.walk() if y["k"] == "BinaryOperator" and y["op"] == "=" and key(y["c"][0]) == nm and y is not dnode and y["i"] in pos]
+                stale = None
+                for m in muts:
+                    if m is u:
+                        continue
+                    if f.cfg.dominates(dnode["i"], m["i"]) and _reaches(f, pos, m, u, redefs):
+                        stale = m
+                        break
+                chk.obligation(rid, "%s %s: `%s` (= %s->currentStringLength) %s" % (f.where(u), f.name, nm, obj, how), ok=stale is None)
+                if stale is not None:
+                    chk.violation(rid, "stalelen:%s:%s:%s" % (f.unit.base, f.name, nm), f.where(u),
+                                  "`%s` was read from %s->currentStringLength before %s(...) at %s, which may change that length, and is "
+                                  "then %s: the recorded / written length no longer matches the text" % (
+                                      nm, obj, stale.get("callee"), f.where(stale), how))
+    chk.floor(rid, n, 2, "length snapshots used as a buffer length")
+    chk.analysed[rid] = {"checked_uses": n}
+
+
+def _reaches(f, pos, a, b, cuts):
+    """Is statement b reachable from statement a without passing one of the cut statements?"""
+    ab, ai = pos[a["i"]]
+    bb, bi = pos[b["i"]]
+    cutpos = {}
+    for c in cuts:
+        cb, ci = pos[c["i"]]
+        cutpos.setdefault(cb, []).append(ci)
+    if ab == bb and bi > ai and not any(ai < ci < bi for ci in cutpos.get(ab, ())):
+        return True
+    if any(ci > ai for ci in cutpos.get(ab, ())):
+        return False
+    seen, st = set(), list(f.cfg.blocks[ab].rsucc)
+    while st:
+        x = st.pop()
+        if x in seen:
+            continue
+        seen.add(x)
+        cs = cutpos.get(x, ())
+        if x == bb and not any(ci < bi for ci in cs):
+            return True
+        if cs:
+            continue
+        st.extend(f.cfg.blocks[x].rsucc)
+    return False
+
+
+# ---------------------------------------------------------------------------
+# R-TRIMIDX: a trailing trim tests the element it removes
+
+def r_trimidx(P, chk):
+    from .rules_misc import _linear
+    rid = "R-TRIMIDX"
+    chk.rule(rid, "when an `if` / `while` shortens a run by decrementing its length n under a test of s[I], I is base + n - 1 - the last "
+                  "element of the run, the one the decrement removes (testing s[base + n], the element after the run, drops a "
+                  "character whenever the run is followed by a terminator, e.g. at end of input)")
+    n_sites = 0
+    for f in P.all_funcs:
+        if not P.first_party(f) or f.unit.base in ("miniz.c", "argtable3.c") or f.unit.base in compdb.GENERATED_UNITS:
+            continue
+        for w in f.walk():
+            if w["k"] not in ("IfStmt", "WhileStmt"):
+                continue
+            cond, body = w["c"][0], w["c"][1]
+            if cond is None or body is None:
+                continue
+            decs = set()
+            for x in walk(body):
+                if x["k"] == "UnaryOperator" and x["op"] in ("post--", "pre--"):
+                    decs.add(key(x["c"][0]))
+                elif x["k"] == "CompoundAssignOperator" and x["op"] == "-=" and const_value(x["c"][1]) == 1:
+                    decs.add(key(x["c"][0]))
+            if not decs:
+                continue
+            seen = set()
+            for a in walk(cond):
+                if a["k"] != "ArraySubscriptExpr":
+                    continue
+                lf = _linear(f, a["c"][1])
+                if lf is None:
+                    continue
+                for d in decs:
+                    if lf.get(d) != 1:
+                        continue
+                    others = [k2 for k2, v in lf.items() if k2 not in (d, 1) and v]
+                    lengthy = d.endswith("->len") or d.endswith("currentStringLength") or d == "len"
+                    if not others and not lengthy:
+                        continue            # a bare cursor walking backwards: the index is the position itself
+                    if (d, key(a)) in seen:
+                        continue
+                    seen.add((d, key(a)))
+                    n_sites += 1
+                    c0 = lf.get(1, 0)
+                    ok = c0 == -1
+                    chk.obligation(rid, "%s %s: %s-- under a test of [%s]" % (f.where(w), f.name, d, key(a["c"][1])), ok=ok)
+                    if not ok:
+                        chk.violation(rid, "trimidx:%s:%s:%s" % (f.unit.base, f.name, d), f.where(w),
+                                      "`%s` is shortened when %s[%s] matches, but the element removed is [%s - 1]: the test looks %s the run" % (
+                                          d, key(a["c"][0]), key(a["c"][1]), key(a["c"][1]), "past the end of" if c0 >= 0 else "before the end of"))
+    chk.floor(rid, n_sites, 4, "trailing-trim sites")
+    chk.analysed[rid] = {"sites": n_sites}
